@@ -180,3 +180,21 @@ func (s *Store) extIDSuffix(prefix string) string {
 	}
 	return ""
 }
+
+// ---- C06: division of work between the two userinfo hooks of an ID token. Default: both
+// SetUserinfoFromScopes and the optional SetUserinfoFromRequest fill everything (the second call
+// repeats the first). EnableUserinfoSplit: SetUserinfoFromScopes does the real work for the
+// standard scopes (subject, profile, email, phone, address), SetUserinfoFromRequest only ADDS the
+// custom claims of the custom:<n> scopes - it relies on SetUserinfoFromScopes having run before it.
+// The union is what the default produces.
+var userinfoSplit sync.Map // *Store -> bool
+
+func (s *Store) EnableUserinfoSplit() { userinfoSplit.Store(s, true) }
+
+func (s *Store) extUserinfoSplit(ui *oidc.UserInfo, userID string, scopes []string) bool {
+	if _, on := userinfoSplit.Load(s); !on {
+		return false
+	}
+	s.extUserinfoCustom(ui, userID, scopes)
+	return true
+}
